@@ -483,6 +483,20 @@ fn big_ops(tier: Tier) -> Vec<BOp> {
         v.push(AssertEqualToFixed(193, c.clone()));
         v.push(AssertNotEqualToFixed(193, c.clone()));
     }
+    // a constant operand (assign_fixed_biguint) on either side; constants whose bit length is a
+    // multiple of the limb size, one above, and small ones
+    for c in [pow2(96) - 1u32, pow2(192) - 1u32, pow2(96), bu(5)] {
+        for k in [bops::FK::Add, bops::FK::Sub, bops::FK::Mul, bops::FK::DivRem, bops::FK::LowerThan] {
+            for lhs in [false, true] {
+                if !tier.is_thorough() && c == bu(5) && lhs {
+                    continue;
+                }
+                v.push(WithFixed(k, 193, c.clone(), lhs));
+            }
+        }
+    }
+    v.push(WithFixed(bops::FK::Add, 96, pow2(96) - 1u32, false));
+    v.push(WithFixed(bops::FK::Mul, 8, pow2(96) - 1u32, true));
     // (assert_equal_to_fixed with a constant longer than x is a documented construction-time panic: not a case)
     v.extend([IsEqualToFixed(8, pow2(96)), IsNotEqualToFixed(97, bu(1))]);
     for n in [1usize, 8, 95, 96, 97, 193] {
